@@ -37,12 +37,12 @@ CHECKS = {
  "C07": dict(
     level="model_checking", ref="DESIGN.md §4 C07",
     technique="TLA+ spec EmuFull (task/body state machine of task.c/body.c with the nOS-V and Nanos6 rules) explored by TLC with invariants; transition cover replayed on ovniemu; task id/type/body/app/rank timelines validated by EmuTrace.tla",
-    text="Bounded nOS-V model (normal, parallel and second normal task, 2 threads, rank) and Nanos6 model (relaxed nesting) explored exhaustively with BodyRunsOnAtMostOneThread, OnlyTopRuns, TaskChansMirrorBodies, ParallelNeverPaused; 8000 (quick) histories incl. every rejected transition class replayed on the emulator.",
+    text="Bounded nOS-V model (normal, parallel and second normal task, 2 threads, rank) and Nanos6 model (relaxed nesting, rank) explored exhaustively with BodyRunsOnAtMostOneThread, OnlyTopRuns, TaskChansMirrorBodies, ParallelNeverPaused; 8000 (quick) histories incl. every rejected transition class replayed on the emulator.",
     note="Task types compared through PCF labels; a Nanos6 task started directly over TASK_BODY is Unspecified."),
  "C08": dict(
     level="model_checking", ref="DESIGN.md §4 C08",
     technique="TLA+ spec Emu (stack machine over committed event tables EventData.tla) explored by TLC per model; transition cover + every enter/leave pair of all 8 models in 10 shapes + depth probes replayed on ovniemu -l and validated by EmuTrace.tla",
-    text="For each model a bounded instance (3 region kinds, bystander thread, thread state changes) is explored and replayed; additionally all 149 push/pop pairs of the tables are exercised (enter/leave/mismatch/empty/lint/state precondition/nesting) and the 512-deep stack limit is probed; the value shown for the innermost region comes from the committed table.",
+    text="For each model a bounded instance (3 region kinds, bystander thread, thread state changes) is explored and replayed; additionally all 149 push/pop pairs of the tables are exercised (enter/leave/mismatch/empty/lint/state precondition incl. paused, cooling and warming/nesting) and the 512-deep stack limit is probed; the value shown for the innermost region comes from the committed table.",
     note="Tables are committed data (spec/data/events.json) transcribed from documentation and model tables; immediate re-entry is Unspecified."),
  "C17": dict(
     level="model_checking", ref="DESIGN.md §4 C17",
@@ -53,12 +53,12 @@ CHECKS = {
  "C09": dict(
     level="fault_enumeration", ref="DESIGN.md §4 C09",
     technique="TLA+ spec RtFs (literal system-call sequence of the runtime + Crash between any two calls) checked by TLC; every system call index of every scenario program is killed with strace on the real library and the surviving directories + ovniemu verdict are validated by RtFsTrace.tla",
-    text="TLC checks C09a/C09b on the bounded family (direct/tmp mode, 1-2 flushes, copy chunk sizes, both readdir orders, accepted-prefix positions) and refutes the negative configurations (relocation in readdir order). On the code: the strace call list of each scenario must be exactly the model's script, and for every call index N the process is re-run with SIGKILL at the entry of call N; the abstract disk state must equal the model state at that crash point and the monitors are evaluated with the observed emulator verdict. The error-injection family of C10 is also run and judged by the C09 monitors (a stream is marked finished only after its bytes are in place, also on the error paths).",
-    note="Single-threaded scenarios (threads write disjoint directories); SIGKILL delivered by strace at syscall entry; the emulator is the observation of 'accepted'. The scenario 'boundary-tmp' places the end event exactly on the stdio copy-chunk boundary."),
+    text="TLC checks C09a/C09b on the bounded family (direct/tmp mode, 1-2 flushes, copy chunk sizes, both readdir orders, accepted-prefix positions) and refutes the negative configurations (relocation in readdir order). On the code: the strace call list of each scenario must be exactly the model's script, and for every call index N the process is re-run with SIGKILL at the entry of call N; the abstract disk state must equal the model state at that crash point and the monitors are evaluated with the observed emulator verdict. The error-injection family of C10 is also run and judged by the C09 monitors (a stream is marked finished only after its bytes are in place, also on the error paths). Spec RtFs2 (two threads of one process, whole-directory acceptance by the emulator; negative configuration refuted) is bound by two-thread programs: strace -P confines the injection to the files of one thread, every matching call of either thread is killed / failed and the per-stream disk state + emulator verdicts are judged by the multi-stream monitors.",
+    note="Single-threaded scenarios plus two-thread programs whose threads run one after the other (threads write disjoint directories); SIGKILL delivered by strace at syscall entry; the emulator is the observation of 'accepted'. The scenario 'boundary-tmp' places the end event exactly on the stdio copy-chunk boundary."),
  "C10": dict(
     level="fault_enumeration", ref="DESIGN.md §4 C10",
     technique="TLA+ spec RtFs with a Fail alternative for every call (one fault per run) checked by TLC; every libovni system call of every scenario is failed with strace error injection on the real library and the outcome is judged by the C10 monitors of RtFsTrace.tla",
-    text="TLC checks C10a/b/c (normal return => a complete copy exists; the only complete copy is never deleted; nothing accepted lacks flushed bytes) for a single failing call anywhere, and refutes the variant that ignores copy errors. On the code each call index is failed with ENOSPC/EIO/EACCES (the call is not executed) and the exit kind (abort with diagnostic / normal return), the disk state of tmp and final directories and the emulator verdicts are validated.",
+    text="TLC checks C10a/b/c (normal return => a complete copy exists; the only complete copy is never deleted; nothing accepted lacks flushed bytes) for a single failing call anywhere, and refutes the variant that ignores copy errors. Two-thread programs (spec RtFs2) get the same treatment per thread. On the code each call index is failed with ENOSPC/EIO/EACCES (the call is not executed) and the exit kind (abort with diagnostic / normal return), the disk state of tmp and final directories and the emulator verdicts are validated.",
     note="Error injection skips the call (no partial effect); truthful short writes are injected separately through an LD_PRELOAD shim (every write returns at most k bytes) and must leave complete streams. Faults are single."),
  "C11": dict(
     level="model_checking", ref="DESIGN.md §4 C11",
@@ -68,12 +68,12 @@ CHECKS = {
  "C13": dict(
     level="model_checking", ref="DESIGN.md §4 C13",
     technique="TLA+ specs PrvTrace (clauses of the property as operators; expected row names from SystemOps) and ChanPrv (channel + Paraver writer implementation layer, replayed in process) evaluated by TLC on the real .prv/.pcf/.row files of accepted runs over TLC-generated histories of all bounded models and the metadata family",
-    text="Every clause (non-decreasing times, rows in range, header duration = last event time, types declared in the .pcf, labelled state values, .row names/count/order) is evaluated by TLC on the files written by the real emulator for thousands of accepted runs covering all models, marks, tasks, ranks, two looms, multi-process systems and the breakdown files written with -b. The writer itself is modelled (spec ChanPrv: stack/single channels, propagate phases, prv.c duplicate/zero/NEXT rules, non-decreasing times, header = last advance, track.c modes; 7 refuted wrong variants) and ~19k TLC-exported call sequences are replayed in process on the real chan/bay/prv/track objects (drivers/chanprvharness).",
+    text="Every clause (non-decreasing times, rows in range, header duration = last event time, types declared in the .pcf, labelled state values, .row names/count/order) is evaluated by TLC on the files written by the real emulator for thousands of accepted runs covering all models, marks, tasks (incl. type labels whose hash sits on a boundary of the gid arithmetic), ranks, two looms, multi-process systems and the breakdown files written with -b. The writer itself is modelled (spec ChanPrv: stack/single channels, propagate phases, prv.c duplicate/zero/NEXT rules, non-decreasing times, header = last advance, track.c modes; 7 refuted wrong variants) and ~19k TLC-exported call sequences are replayed in process on the real chan/bay/prv/track objects (drivers/chanprvharness).",
     note="Speaks of accepted traces only; 64-bit values are folded before TLC; the semantics of breakdown rows is C20, their well-formedness is checked here."),
  "C14": dict(
     level="model_checking", ref="DESIGN.md §4 C14",
     technique="TLA+ spec Version (Compatible/Parse/ShouldEnable + code-shaped layer) checked exhaustively by TLC; exported cases replayed on version_parse/version_is_compatible/ovni_version_check_str/ovni_thread_require and on ovniemu (require versions, model enabling)",
-    text="TLC enumerates all (want, have) triples over 0..3, all strings up to length 6/7 over a 6-character alphabet and all (events, requires, -a) configurations of 8 models with 18 invariants and 5 refuted negative configurations; >100k exported cases are replayed on the real runtime functions and the emulator.",
+    text="TLC enumerates all (want, have) triples over 0..3, all strings up to length 6/7 over a 6-character alphabet and all (events, requires, -a) configurations of 8 models (half of them with decoy names in the require table that extend or abbreviate a model name) with 18 invariants and 5 refuted negative configurations; >100k exported cases are replayed on the real runtime functions and the emulator.",
     note="Strings whose only irregularity is undefined by the property (empty components, 4th component, strtol spellings) are Unspecified."),
  "C15": dict(
     level="model_checking", ref="DESIGN.md §4 C15",
@@ -95,12 +95,12 @@ CHECKS = {
  "C03": dict(
     level="model_checking", ref="DESIGN.md §4 C03",
     technique="TLA+ specs Player/PlayerMerge (property layer Merge), PtrHeap/PlayerHeap/HeapOps (heap.h and player.c transcribed) checked by TLC incl. refinement HeapPlayer => Merge; exported heap op sequences replayed on the real heap.h (drivers/heapharness), exported stream sets replayed through ovnidump/ovnitop/ovniemu in several enumeration orders and validated by PlayerTrace.tla",
-    text="TLC checks the structural heap invariants and that every emission of the pointer-heap player is an allowed step of the abstract k-way merge (ties free), corrected clocks and output times, independence of the enumeration order, with 12 refuted negative configurations. ~19k heap op sequences are replayed on heap.h comparing popped keys and the whole pointer structure; 1200 (quick) stream sets with offset tables are materialised in several directory orders (and nftw orders through a shim), also with clocks seconds apart and with looms sharing a host name, and the observed replay order / PRV times validated by TLC.",
+    text="TLC checks the structural heap invariants and that every emission of the pointer-heap player is an allowed step of the abstract k-way merge (ties free), corrected clocks and output times, independence of the enumeration order, with 12 refuted negative configurations. ~19k heap op sequences are replayed on heap.h comparing popped keys and the whole pointer structure; 1200 (quick) stream sets with offset tables are materialised in several directory orders (and nftw orders through a shim), also with clocks seconds apart, with looms sharing a host name and with a loom or thread directory reached through a symbolic link, and the observed replay order / PRV times validated by TLC.",
     note="ovnidump/ovnitop have no clock-offset input (offsets exercised on ovniemu only); a stream whose first corrected clock is negative is refused by the code (modelled via Base, assumption)."),
  "C12": dict(
     level="model_checking", ref="DESIGN.md §4 C12",
     technique="TLA+ spec Corrupt (acceptance function over EmuFull + SystemOps; every single corruption of 5 seed traces enumerated by TLC with expected verdict) + CorruptBytes for suite traces; each corrupted trace materialised byte for byte and run through ovniemu -l",
-    text="TLC enumerates every truncation offset, adjacent swap, clock regression, header byte alteration, JSON damage, metadata key removal/retyping/alteration, require alteration, MCV substitution, payload-size change and jumbo-flag removal of the seeds and decides reject / ok / unspecified with the reference semantics (12 invariants, 4 refuted negative configurations); ~4000 (quick) corrupted traces are run on the real emulator: expected reject => exit 1 without 'finished ok' and without a signal.",
+    text="TLC enumerates every truncation offset, adjacent swap, clock regression, header byte alteration, JSON damage, metadata key removal/retyping/alteration, require alteration, MCV substitution (incl. codes differing from a listed one only in bit 7), payload-size change and jumbo-flag removal of the seeds and decides reject / ok / unspecified with the reference semantics (12 invariants, 4 refuted negative configurations); ~4000 (quick) corrupted traces are run on the real emulator: expected reject => exit 1 without 'finished ok' and without a signal.",
     note="Where a corruption yields another valid trace the spec says ok/Unspecified; redundant guards in the code make some single-guard mutations verdict-equivalent."),
 
  "C16": dict(
